@@ -56,7 +56,7 @@ func (r *Runner) doGet(a *Action, k int, e *MEntry, live bool, rf Facet, pv *any
 	}
 	var gv int
 	var gerr error
-	call(func() { gv, gerr = c.Get(context.Background(), k, s1Loader{r}) })
+	call(func() { gv, gerr = c.Get(ctxFor(a), k, s1Loader{r}) })
 	log := r.takeHooks()
 	calls := append([]loaderCall(nil), r.loaderCalls...)
 	r.loads += uint64(len(calls))
@@ -253,7 +253,7 @@ func (r *Runner) doBulkGet(a *Action, pv *any, call func(func())) error {
 	}
 	var res map[int]int
 	var gerr error
-	call(func() { res, gerr = c.BulkGet(context.Background(), keys, s1Loader{r}) })
+	call(func() { res, gerr = c.BulkGet(ctxFor(a), keys, s1Loader{r}) })
 	log := r.takeHooks()
 	calls := append([]loaderCall(nil), r.loaderCalls...)
 	r.loads += uint64(len(calls))
@@ -373,7 +373,7 @@ func (r *Runner) doRefresh(a *Action, k int, e *MEntry, live bool, pv *any, call
 	c := r.Env.C
 	r.cur = r.noReloadPanic(a)
 	var ch <-chan otter.RefreshResult[int, int]
-	call(func() { ch = c.Refresh(context.Background(), k, s1Loader{r}) })
+	call(func() { ch = c.Refresh(ctxFor(a), k, s1Loader{r}) })
 	log := r.takeHooks()
 	calls := append([]loaderCall(nil), r.loaderCalls...)
 	r.loads += uint64(len(calls))
@@ -453,7 +453,7 @@ func (r *Runner) doBulkRefresh(a *Action, pv *any, call func(func())) error {
 		}
 	}
 	var ch <-chan []otter.RefreshResult[int, int]
-	call(func() { ch = c.BulkRefresh(context.Background(), keys, s1Loader{r}) })
+	call(func() { ch = c.BulkRefresh(ctxFor(a), keys, s1Loader{r}) })
 	log := r.takeHooks()
 	calls := append([]loaderCall(nil), r.loaderCalls...)
 	r.loads += uint64(len(calls))
@@ -1152,4 +1152,14 @@ func (r *Runner) doSaveLoad(a *Action) error {
 		return r.fail(FRet, "save/load: the loaded cache weighs %d, its maximum is %d", tw, tcfg.Maximum)
 	}
 	return nil
+}
+
+// ctxFor returns the context of a load call: a cancelled one for actions marked so.
+func ctxFor(a *Action) context.Context {
+	if a != nil && a.Ctx == 1 {
+		ctx, cancel := context.WithCancel(context.Background())
+		cancel()
+		return ctx
+	}
+	return context.Background()
 }
